@@ -141,7 +141,9 @@ func main() {
 	} else {
 		r.corpus()
 		r.chains()
-		r.random(lib.NewRng(cfg.Seed))
+		// lib.NewRng(seed) starts the splitmix sequence at seed*gamma: the streams of seeds k and k+1 are the same
+		// stream shifted by one draw.  Hash the seed first so that different seeds give unrelated programs.
+		r.random(lib.NewRng(lib.NewRng(cfg.Seed).Next()))
 	}
 	for name, cf := range r.files {
 		res.CorrFiles = append(res.CorrFiles, cf.WriteTo(cfg.Out, name))
